@@ -2855,14 +2855,11 @@ class SHA1Reader(BinaryIO):
             ChecksumMismatch: If SHA1 doesn't match
         """
         stored = self.f.read(20)
-        # If git option index.skipHash is set the index will be empty
-        if stored != self.sha1.digest() and (
-            not allow_empty
-            or (
-                len(stored) == 20
-                and sha_to_hex(RawObjectID(stored))
-                != b"0000000000000000000000000000000000000000"
-            )
+        # If git option index.skipHash is set the checksum is all zeros. A
+        # trailer that is shorter than a checksum (a truncated file) is not
+        # that: it must not be accepted.
+        if stored != self.sha1.digest() and not (
+            allow_empty and stored == b"\x00" * 20
         ):
             raise ChecksumMismatch(
                 self.sha1.hexdigest(),
